@@ -171,10 +171,8 @@ func getLabels(ctr types.Container) containerLabels {
 
 func (c containerLabels) Match(matchers []logql.LabelMatcher) bool {
 	for _, matcher := range matchers {
-		value, ok := c.labels[string(matcher.Label)]
-		if !ok {
-			return false
-		}
+		// A label the container does not have behaves as an empty string.
+		value := c.labels[string(matcher.Label)]
 		if !match(matcher, value) {
 			return false
 		}
